@@ -21,6 +21,15 @@ def run(ctx):
         J.append(boolfam.harness_job(ctx, i, "plain", {"fam": "in", "in": gen, "n": 0, "skip": k, "stride": nsh, "emb": "0", "cfg": "batch", "seed": s})); i += 1
     for k in range(6 if q else 16):
         J.append(boolfam.harness_job(ctx, i, "plain" if k % 2 else "hi", {"fam": "walk", "n": 40 if q else 250, "grid": 6, "emb": "0,5,2,3", "cfg": "batch", "seed": s * 100 + k})); i += 1
+    # complete scope of three oriented rectangles on the 2x2 lattice (1+2 and 2+1): coincident copies, cancelling pairs, shared corners
+    gen3 = ctx.path("rect3.ndjson")
+    g3 = core.tlc_ok(core.tlc("GenRect3", "GenRect3.cfg", env={"OUT": gen3}, timeout=300), "GenRect3"); ctx.add_tlc(g3)
+    ctx.extra["rect_triples_enumerated_by_tlc"] = core.count_lines(gen3)
+    for k in range(4):
+        J.append(boolfam.harness_job(ctx, i, "plain", {"fam": "in", "in": gen3, "n": 0, "skip": k, "stride": 4, "emb": "0", "cfg": "batch" if not q else "batchlite", "seed": s})); i += 1
+    # many random rectangles (3-6) on a small lattice: stale horizontal segments / joins need several coincident horizontals
+    for k in range(8 if q else 32):
+        J.append(boolfam.harness_job(ctx, i, "plain", {"fam": "rects", "n": 1500 if q else 10000, "grid": [3, 4, 5][k % 3], "emb": "0", "cfg": "batchlite", "seed": s * 100 + 40 + k})); i += 1
     if not q:   # the rectangle pairs again at scale (2^13, +2^52) and on the HI_PRECISION build
         for k in range(nsh):
             J.append(boolfam.harness_job(ctx, i, "hi", {"fam": "in", "in": gen, "n": 0, "skip": k, "stride": nsh, "emb": "3", "cfg": "batch", "seed": s})); i += 1
